@@ -1,5 +1,7 @@
 """C15: the four execution limits, the order of checks in push_execution, the per-node cap of
-_limit_value_infers, the statements of _memoize_default's miss branch; fingerprints."""
+_limit_value_infers, the statements of _memoize_default's miss branch, the loops of
+ClassMixin.py__mro__ (which element is tested / appended to the de-duplication list / yielded);
+fingerprints."""
 import ast
 from translator.extract import Src, TieBroken, u, lean_list
 
@@ -10,7 +12,84 @@ def _nat(v, what):
     return str(v)
 
 
+def _skeleton(body, steps, what):
+    """statement skeleton of a function body: loops, tests, try/except/else and simple statements in
+    source order; docstring-like string expressions and debug.* calls are dropped"""
+    for n in body:
+        if isinstance(n, ast.For):
+            if n.orelse:
+                raise TieBroken('%s: for loop with an else branch' % what, u(n).split('\n')[0])
+            steps.append('for %s in %s' % (u(n.target), u(n.iter)))
+            _skeleton(n.body, steps, what)
+            steps.append('end')
+        elif isinstance(n, ast.If):
+            steps.append('if ' + u(n.test))
+            _skeleton(n.body, steps, what)
+            if n.orelse:
+                steps.append('else')
+                _skeleton(n.orelse, steps, what)
+            steps.append('end')
+        elif isinstance(n, ast.Try):
+            if n.finalbody:
+                raise TieBroken('%s: try with a finally block' % what, u(n).split('\n')[0])
+            steps.append('try')
+            _skeleton(n.body, steps, what)
+            for h in n.handlers:
+                steps.append('except ' + (u(h.type) if h.type is not None else ''))
+                _skeleton(h.body, steps, what)
+            if n.orelse:
+                steps.append('else')
+                _skeleton(n.orelse, steps, what)
+            steps.append('end')
+        elif isinstance(n, ast.Expr):
+            s = u(n)
+            if s.startswith('debug.') or isinstance(n.value, ast.Constant):
+                continue
+            steps.append(s)
+        elif isinstance(n, (ast.Assign, ast.AugAssign, ast.Return, ast.Pass)):
+            steps.append(u(n))
+        else:
+            raise TieBroken('%s has an unexpected statement' % what, u(n).split('\n')[0])
+
+
+def _mro(klass, g):
+    """ClassMixin.py__mro__: the whole statement skeleton, and separately the four expressions of
+    the innermost loop that decide whether the listing is duplicate-free"""
+    fn = klass.find('ClassMixin.py__mro__')
+    where = 'jedi/inference/value/klass.py:ClassMixin.py__mro__'
+    steps = []
+    _skeleton(fn.body, steps, 'klass.py: py__mro__')
+    g.define('mroSteps', 'List String', lean_list(steps), where)
+    g.define('mroDecorators', 'List String', lean_list([u(d) for d in fn.decorator_list]), where)
+    loops = [n for n in ast.walk(fn) if isinstance(n, ast.For)
+             and not any(isinstance(m, ast.For) for b in n.body for m in ast.walk(b))]
+    if len(loops) != 1:
+        raise TieBroken('klass.py: py__mro__ has no single innermost loop', repr(len(loops)))
+    loop = loops[0]
+    if len(loop.body) != 1 or not isinstance(loop.body[0], ast.If) or loop.body[0].orelse:
+        raise TieBroken('klass.py: the innermost loop of py__mro__ is not a single `if`', u(loop))
+    test = loop.body[0]
+    t = test.test
+    if not (isinstance(t, ast.Compare) and len(t.ops) == 1 and isinstance(t.ops[0], ast.NotIn)):
+        raise TieBroken('klass.py: py__mro__ does not test `<x> not in <list>`', u(t))
+    appended = [c for b in test.body for c in ast.walk(b) if isinstance(c, ast.Call)
+                and isinstance(c.func, ast.Attribute) and c.func.attr == 'append'
+                and u(c.func.value) == u(t.comparators[0])]
+    yielded = [c for b in test.body for c in ast.walk(b) if isinstance(c, ast.Yield)]
+    if len(appended) != 1 or len(appended[0].args) != 1 or len(yielded) != 1 or yielded[0].value is None:
+        raise TieBroken('klass.py: py__mro__ no longer appends one element and yields one element per '
+                        'new class', u(test))
+    g.define('mroLoopVar', 'String', lean_list([u(loop.target)])[1:-1], where + ' (innermost loop variable)')
+    g.define('mroTested', 'String', lean_list([u(t.left)])[1:-1], where + ' (`<x> not in mro`)')
+    g.define('mroSeenList', 'String', lean_list([u(t.comparators[0])])[1:-1], where + ' (the list tested)')
+    g.define('mroAppended', 'String', lean_list([u(appended[0].args[0])])[1:-1],
+             where + ' (`mro.append(<x>)`)')
+    g.define('mroYielded', 'String', lean_list([u(yielded[0].value)])[1:-1], where + ' (`yield <x>`)')
+    g.fp(klass, 'ClassMixin.py__mro__')
+
+
 def generate(repo, g):
+    _mro(Src(repo, 'jedi/inference/value/klass.py'), g)
     rec = Src(repo, 'jedi/inference/recursion.py')
     cache = Src(repo, 'jedi/inference/cache.py')
     st = Src(repo, 'jedi/inference/syntax_tree.py')
